@@ -266,7 +266,7 @@ struct OpDef { int code, a, b, c; };
 struct Cfg {
 	std::string name;
 	std::vector<int> kinds;
-	bool conv, cxx, traits, clone, reply, refbuf, genconv, inref, group, rdops, rarr, notify;
+	bool conv, cxx, traits, clone, reply, refbuf, genconv, inref, group, rdops, rarr, notify, groupcopy;
 	int nslots, cap, rawcap, depth;
 	std::vector<OpDef> ops;
 };
@@ -627,7 +627,7 @@ struct MetaSys : World {
 		case M_RASET: return usable(rao[s]) && !objs[rao[s]].holds.empty() && t < (int) objs.size() && !objs[t].dead && objs[t].raw > 0 && objs[t].kind >= K_CNT;
 		case M_RACLEAR: case M_RACOMPACT: case M_RADROP: return usable(rao[s]);
 		case M_RACLEARREF: return usable(rao[s]) && t < (int) objs.size() && holdsobj(rao[s], t);
-		case M_NADD: return s < (int) objs.size() && !objs[s].dead && objs[s].kind == K_STREAM && objs[s].raw > 0 && !registered(s);
+		case M_NADD: return so[s] >= 0 && objs[so[s]].kind == K_STREAM && can_addref(so[s]) && !registered(so[s]);
 		case M_NCLEAR: return s < (int) objs.size() && registered(s);
 		case M_NWAIT: return !nreg.empty();
 		case M_NNEXT: case M_NFINI: return no != 0;
@@ -650,9 +650,9 @@ struct MetaSys : World {
 		}
 		for (size_t i = 0; i < defs.size(); ++i) s += defs[i].live ? fmt("d%zu=%d ", i, defs[i].ctx) : fmt("d%zu=- ", i);
 		if (cfg.refbuf) s += fmt("rb=%d,%d nb=%d ", rbo[0], rbo[1], nbufs());
-		if (cfg.group) s += fmt("node=%d grp=%d,%d ", nodeo, grpo, grp2o);
+		if (cfg.group || cfg.groupcopy) s += fmt("node=%d grp=%d,%d ", nodeo, grpo, grp2o);
 		if (cfg.rarr) s += fmt("ra=%d,%d ", rao[0], rao[1]);
-		if (cfg.group || cfg.rarr) s += loose ? "shared-storage " : "";
+		if (cfg.groupcopy || cfg.rarr) s += loose ? "shared-storage " : "";
 		if (cfg.notify) { s += "reg="; for (int e : nreg) s += fmt("%d,", e); s += " pending=" + pending() + " "; }
 		s += fmt("created=%d", created);
 		return s;
@@ -676,8 +676,22 @@ struct MetaSys : World {
 		}
 		return true;
 	}
+	// every container must list exactly the objects its holder was given and has not given up (a copy is a holder of its own)
+	bool containers_ok()
+	{
+		for (int c : {grpo, grp2o, rao[0], rao[1]}) {
+			if (!usable(c)) continue;
+			std::multiset<void *> want, got;
+			for (int e : objs[c].holds) if (e >= 0) want.insert(objs[e].ptr);
+			if (objs[c].kind == K_GROUP) { for (const mpt::item<metatype> &it : grpp(c)->items()) if (it.instance()) got.insert(it.instance()); }
+			else { RArr *a = (RArr *) objs[c].ptr; for (long i = 0, n = a->length(); i < n; ++i) if (a->begin()[i].instance()) got.insert(a->begin()[i].instance()); }
+			if (want != got) return fail("holder-content", oname(c) + fmt(" lists %zu object(s), its holder put in and kept %zu (an operation on another copy changed it)", got.size(), want.size()));
+		}
+		return true;
+	}
 	bool checkall()
 	{
+		if (!bad && (cfg.group || cfg.rarr) && !containers_ok()) return false;   // first: reads pointers only, names the container operation as the culprit
 		if (!check()) return false;
 		for (size_t i = 0; i < defs.size(); ++i) {
 			bool live = ledger_is_live(defs[i].block);
@@ -1107,7 +1121,18 @@ struct MetaSys : World {
 			grp2o = add(K_GROUP, static_cast<metatype *>(c), find_block(c));
 			// the copy is a second holder of every item, however the implementation stores that
 			if (c->items().size() && c->items().begin() == g->items().begin()) loose = true;
-			for (int e : objs[grpo].holds) { if (e >= 0) retain(e); objs[grp2o].holds.push_back(e); }
+			// what the copy holds is read from the copy: the same object (one more reference) or a real copy of an unshareable item
+			for (const mpt::item<metatype> &it : c->items()) {
+				metatype *p = it.instance(); int e = -1;
+				for (size_t q = 0; p && q < objs.size(); ++q) if (!objs[q].dead && objs[q].ptr == (void *) p) e = (int) q;
+				if (p && e < 0) {
+					bool cnt = false; for (int h : objs[grpo].holds) if (h >= 0 && objs[h].cm) cnt = true;
+					if (!cnt) { r.incomplete("group clone holds an unknown object"); return false; }
+					CountMeta *cm = (CountMeta *) p; owned.push_back(cm); e = add(K_CNT, cm, 0); objs[e].cm = cm;
+				}
+				else if (e >= 0) retain(e);
+				objs[grp2o].holds.push_back(e);
+			}
 			++C.container_copies; nontrivial = true;
 			break; }
 		case M_GRPCLEARREF: {
@@ -1158,8 +1183,11 @@ struct MetaSys : World {
 		case M_NADD: {
 			sig = "notify_add|stream";
 			if (!no) no = newnotify();
-			if (LIB(mpt::mpt_notify_add(no, POLLIN, (mpt::input *) objs[s].ptr)) < 0) { ++C.spurious; break; }
-			--objs[s].raw; nreg.push_back(s); nfd.push_back(objs[s].fd0);   // the notifier took over the caller's reference
+			int o = so[s];
+			// the caller takes a reference and hands it to the notifier (taken over on success only)
+			if (!LIB(sl[s]->addref())) { ++C.spurious; break; }
+			if (LIB(mpt::mpt_notify_add(no, POLLIN, (mpt::input *) objs[o].ptr)) < 0) { LIB((sl[s]->unref(), 0)); ++C.spurious; break; }
+			retain(o); nreg.push_back(o); nfd.push_back(objs[o].fd0);
 			break; }
 		case M_NCLEAR: {
 			sig = std::string("notify_clear|") + (pending().find(fmt("%d,", s)) != std::string::npos ? "pending" : "idle");
@@ -1434,7 +1462,7 @@ static bool configure(const std::string &job, Tier tier)
 	cfg = Cfg();
 	cfg.name = job;
 	cfg.nslots = 3; cfg.cap = 3; cfg.rawcap = tier == Quick ? 1 : 2;
-	cfg.conv = cfg.cxx = cfg.traits = cfg.clone = true; cfg.reply = cfg.refbuf = cfg.genconv = cfg.inref = cfg.group = cfg.rdops = cfg.rarr = cfg.notify = false;
+	cfg.conv = cfg.cxx = cfg.traits = cfg.clone = true; cfg.reply = cfg.refbuf = cfg.genconv = cfg.inref = cfg.group = cfg.rdops = cfg.rarr = cfg.notify = cfg.groupcopy = false;
 	std::vector<OpDef> &o = cfg.ops;
 	int S = cfg.nslots;
 	if (job == "buffer" || job == "buffer:typed") {
@@ -1468,8 +1496,9 @@ static bool configure(const std::string &job, Tier tier)
 	else if (k == "refarray") { cfg.kinds = {K_CNT, K_GENINFO}; cfg.refbuf = true; cfg.nslots = S = 2; cfg.cap = 2; cfg.rawcap = 1; cfg.cxx = false; cfg.traits = false; cfg.clone = false; cfg.conv = false; }
 	else if (k == "inputref") { cfg.kinds = {K_STREAM}; cfg.inref = cfg.refbuf = true; cfg.nslots = S = 2; cfg.cap = 2; cfg.rawcap = 1; cfg.cxx = false; cfg.clone = false; cfg.conv = false; }
 	else if (k == "group") { cfg.kinds = {K_CNT, K_CXX}; cfg.group = true; cfg.nslots = S = 2; cfg.cap = 2; cfg.rawcap = tier == Quick ? 1 : 2; cfg.cxx = false; cfg.clone = false; cfg.conv = false; }
+	else if (k == "groupcopy") { cfg.kinds = {K_CNT}; cfg.groupcopy = true; cfg.nslots = S = 2; cfg.cap = 2; cfg.rawcap = 1; cfg.cxx = false; cfg.clone = false; cfg.conv = false; }
 	else if (k == "cxxarray") { cfg.kinds = {K_CNT, K_CXX}; cfg.rarr = true; cfg.nslots = S = 2; cfg.cap = 2; cfg.rawcap = 2; cfg.cxx = false; cfg.clone = false; cfg.conv = false; }
-	else if (k == "notify") { cfg.kinds = {K_STREAM}; cfg.notify = true; cfg.nslots = S = 2; cfg.cap = 2; cfg.rawcap = 1; cfg.cxx = false; cfg.clone = false; cfg.conv = false; }
+	else if (k == "notify") { cfg.kinds = {K_STREAM}; cfg.notify = true; cfg.nslots = S = 2; cfg.cap = 2; cfg.rawcap = 1; if (tier == Quick) cfg.depth = 7; cfg.cxx = false; cfg.clone = false; cfg.conv = false; }
 	else if (k == "mixed") { cfg.kinds = {K_GENINFO, K_RAW, K_REPLY, K_CXX}; cfg.cxx = false; cfg.traits = false; cfg.clone = false; }
 	else return false;
 	// two raw references per object only where the closed state space stays small; the other jobs close with one
@@ -1486,20 +1515,20 @@ static bool configure(const std::string &job, Tier tier)
 	if (cfg.clone) add_ops(o, M_CLONE, S, S);
 	if (cfg.reply) { add_ops(o, M_ARM, S, 0); add_ops(o, M_DEFER, S, 0); add_ops(o, M_DREPLY, 2, 3); add_ops(o, M_CREPLY, S, 0); }
 	if (cfg.rdops) { add_ops(o, M_RDADVANCE, S, 0); add_ops(o, M_RDMODIFY, S, 0); }
-	if (cfg.group) { add_ops(o, M_NODEASSIGN, S, 0); add_ops(o, M_NODESET, 6, 0); add_ops(o, M_NODEDROP, 1, 0); add_ops(o, M_ADDITEMS, 1, 0); add_ops(o, M_GRPAPPEND, 6, 0); add_ops(o, M_GRPCLEAR, 2, 0); add_ops(o, M_GRPDROP, 2, 0); add_ops(o, M_GRPCLONE, 1, 0); add_ops(o, M_GRPCLEARREF, 2, 4); }
+	if (cfg.group) { add_ops(o, M_NODEASSIGN, S, 0); add_ops(o, M_NODESET, 6, 0); add_ops(o, M_NODEDROP, 1, 0); add_ops(o, M_ADDITEMS, 1, 0); add_ops(o, M_GRPAPPEND, 6, 0); add_ops(o, M_GRPCLEAR, 1, 0); add_ops(o, M_GRPDROP, 1, 0); }
+	if (cfg.groupcopy) { add_ops(o, M_GRPAPPEND, 4, 0); add_ops(o, M_GRPCLEAR, 2, 0); add_ops(o, M_GRPDROP, 2, 0); add_ops(o, M_GRPCLONE, 1, 0); add_ops(o, M_GRPCLEARREF, 2, 4); }
 	if (cfg.rarr) { add_ops(o, M_RAINSERT, 4, 0); add_ops(o, M_RACOPY, 1, 0); add_ops(o, M_RASET, 2, 4); add_ops(o, M_RACLEAR, 2, 0); add_ops(o, M_RACLEARREF, 2, 4); add_ops(o, M_RACOMPACT, 2, 0); add_ops(o, M_RADROP, 2, 0); }
-	if (cfg.notify) { add_ops(o, M_NADD, 4, 0); add_ops(o, M_NCLEAR, 4, 0); add_ops(o, M_NWAIT, 1, 0); add_ops(o, M_NNEXT, 1, 0); add_ops(o, M_NCONFIG, S, 0); add_ops(o, M_NFINI, 1, 0); }
+	if (cfg.notify) { add_ops(o, M_NADD, S, 0); add_ops(o, M_NCLEAR, 4, 0); add_ops(o, M_NWAIT, 1, 0); add_ops(o, M_NNEXT, 1, 0); add_ops(o, M_NCONFIG, S, 0); add_ops(o, M_NFINI, 1, 0); }
 	if (cfg.refbuf) { add_ops(o, M_RBPUT, S, 0); add_ops(o, M_RBCLONE, 2, 2); add_ops(o, M_RBCLEAR, 2, 0); add_ops(o, M_RBDETACH, 2, 0); if (!cfg.traits) add_ops(o, M_RFINI, S, 0); }
 	return true;
 }
 
 void mc_jobs(Tier t, std::vector<std::string> &jobs)
 {
-	if (getenv("C15_ONLY")) { jobs.push_back(getenv("C15_ONLY")); return; }   // DEV-ONLY
 	jobs.push_back("refcount");
 	jobs.push_back("buffer");
 	jobs.push_back("buffer:typed");
-	for (const char *k : {"counting", "geninfo", "metabuffer", "rawdata", "rawdata-stages", "iobuffer", "generic", "cxxtype", "stream", "reply", "refarray", "inputref", "group", "cxxarray", "notify", "mixed"}) jobs.push_back(std::string("meta:") + k);
+	for (const char *k : {"counting", "geninfo", "metabuffer", "rawdata", "rawdata-stages", "iobuffer", "generic", "cxxtype", "stream", "reply", "refarray", "inputref", "group", "groupcopy", "cxxarray", "notify", "mixed"}) jobs.push_back(std::string("meta:") + k);
 }
 
 static void flush_counters(Run &r)
